@@ -29,6 +29,7 @@ import itertools
 import sys
 import types
 from abc import ABC
+from dataclasses import field as dc_field
 from dataclasses import make_dataclass
 from typing import Annotated, Any, Union
 
@@ -156,7 +157,10 @@ class Materialised:
         allc = [c for c in self.classes.values() if isinstance(c, type)]
         start = allc[s % len(allc)] if s is not None and allc else self.start()
         exp = bool(self.spec.get("expansion", False)) != bool(flip)
-        saved = [(c, copy.deepcopy(c.__dict__.get("__gengy__"))) for c in allc]
+        # (in a hierarchy without any declared weight extract_grammar has nothing to rewrite: then
+        # nothing is put back, so that weights that appear from nowhere stay visible)
+        declared = any(x.get("weight") is not None for x in self.spec["abstracts"] + self.spec["concretes"])
+        saved = [(c, copy.deepcopy(c.__dict__.get("__gengy__"))) for c in allc] if declared else []
         try:
             g2 = extract_grammar(sub, start, exp)
             d2 = g2.get_min_tree_depth()
@@ -394,7 +398,10 @@ def materialise(spec) -> Materialised:
             ns["__repr__"] = lambda self: type(self).__name__ + "(" + ", ".join(f"{k}={v!r}" for k, v in vars(self).items() if not k.startswith("gengy_")) + ")"
             cls = type(c["name"], bases, ns)
         else:
-            cls = make_dataclass(c["name"], fields, bases=bases, namespace={"__module__": modname})
+            # attributes that are NOT constructor parameters (field(init=False), e.g. a memoised
+            # result): they are no children of the production
+            memo = [(mn, ann_str(mt, c["name"], mn), dc_field(init=False, default=None, compare=False, repr=False)) for mn, mt in c.get("memo", [])]
+            cls = make_dataclass(c["name"], list(fields) + memo, bases=bases, namespace={"__module__": modname})
         cls.__module__ = modname
         cls.__qualname__ = c["name"]
         if c.get("weight") is not None:
@@ -487,6 +494,7 @@ class Flags:
         permute_considered=True,
         sibling=True,
         omit_abstracts=True,
+        memo_fields=True,
         listops=True,  # ListSizeBetween (with custom mutate/crossover) vs LSBWLO only
         nested_generics=True,  # list[Union[..]], list[tuple[..]]
         self_refs=True,  # Union[Self, other]
@@ -795,6 +803,11 @@ def specs(draw, fl: Flags | None = None):
             dep = ["ann", draw(st.sampled_from([["int"], ["ref", draw(st.sampled_from(abs_names))]])) if not fl.finite_choice else ["ref", draw(st.sampled_from(abs_names))], ["UserMH", "raise_if", "d0", draw(st.integers(0, 1))]]
             c["fields"] = [["d0", sib], ["d1", dep]] + fields[: max(0, fl.max_fields - 2)]
 
+    if fl.memo_fields:
+        for c in concretes:
+            if c.get("style") != "plain" and draw(st.integers(0, 5)) == 0:
+                tgt = draw(st.sampled_from(abs_names + [x["name"] for x in concretes]))
+                c["memo"] = [["memo0", ["ref", tgt]]]
     if fl.unproductive and draw(st.integers(0, 2)) == 0:
         # U0 -> CU0(f0: U0) only: legal declarations, but U0 derives no finite program; CU1 makes it
         # reachable from a productive non-terminal (the library gives such symbols distance 1000000)
